@@ -79,6 +79,9 @@ func c10CliGen(t *simrt.Tape, fns []string) *c10CliScenario {
 	bg := &xGen{t: t, fns: append([]string{"hi", "hf", "bytesize", "percent"}, xScalar...), inBody: true}
 	for i := 0; i < nDefs; i++ {
 		name := fmt.Sprintf("uf%d", i+1)
+		if i == 0 && t.WBool(1, 5) {
+			name = []string{"tab", "basename", "dirname", "extname", "repeat"}[t.W(5)] // shadows a builtin the bodies never call
+		}
 		var bodyText string
 		var body *xNode
 		if t.WBool(2, 3) {
